@@ -3,12 +3,12 @@
 EXTENDS SpanEndContract, TraceKit, Integers
 VARIABLES l, m, cur
 vars == <<l, m, cur>>
-NoCfg == [rt |-> FALSE, nprocs |-> 0, hooks |-> FALSE, lim |-> 0, sampled |-> TRUE]
+NoCfg == [rt |-> FALSE, nprocs |-> 0, hooks |-> FALSE, lim |-> 0, sampled |-> TRUE, zero |-> FALSE]
 Init == l = 1 /\ m = Fresh(NoCfg) /\ cur = -1
 TStep == /\ l <= Len(Trace)
          /\ LET e == Trace[l] IN
             IF e.ev = "Cfg"
-              THEN m' = Fresh([rt |-> e.rt, nprocs |-> e.nprocs, hooks |-> e.hooks, lim |-> e.lim, sampled |-> e.sampled]) /\ cur' = e.sc
+              THEN m' = Fresh([rt |-> e.rt, nprocs |-> e.nprocs, hooks |-> e.hooks, lim |-> e.lim, sampled |-> e.sampled, zero |-> e.zero]) /\ cur' = e.sc
               ELSE IF e.sc # cur   \* straggler of an earlier scenario that was abandoned as non-quiescent
               THEN UNCHANGED <<m, cur>>
               ELSE LET r == Step(m, e) IN
